@@ -1,7 +1,59 @@
-(* C12 -- state survives restart and a crash at any point (work in progress). *)
+(* C12 -- state survives restart and a crash at any point.
+
+   Model: theories/Persist.v.  Files are abstract (index file = name, magic written?, stream id ->
+   version; state file = name, complete JSON?, Saved stamp, content); names are (tick, generation)
+   in byte order; a process kill keeps the directory as it is after any prefix of the atomic file
+   steps, the step in progress leaves its file incomplete.  recover_streams / recover_state follow
+   manager.New.  ASSUMED (not modelled): the OS applies create / write / close / remove of a process
+   atomically and in program order; the wall clock used for file names is monotone. *)
 From Coq Require Import List NArith.
 Require Import Pk.Persist Pk.PersistProofs.
+Import ListNotations.
+Open Scope N_scope.
 
+(* 1. Half-written files are ignored: a restart sees exactly what the complete files show. *)
 Theorem c12_torn_index_files_ignored :
   forall (V : Type) (d : list (ifile V)) (id : N), recover_streams d id = recover_streams (readable d) id.
 Proof. intros V. exact recover_ignores_torn. Qed.
+
+Theorem c12_torn_state_files_ignored :
+  forall (S : Type) (d : list (sfile S)), recover_state d = recover_state (filter s_ok d).
+Proof. exact recover_state_ignores_torn. Qed.
+
+(* 2. STATE (tags, settings, endpoints): for EVERY sequence of state saves ss (save k = create file k,
+      write+close it, remove file k-1) and EVERY crash point (any prefix of the step list), a restart
+      loads the newest save whose file was closed.  A save whose steps are all in the prefix (= it was
+      acknowledged) has been closed, so its content or a newer closed one is loaded; with no closed
+      file nothing is loaded. *)
+Theorem c12_state_survives_every_crash_point :
+  forall (S : Type) (ss : list S) (pre post : list (sstep S)),
+    all_save_steps 1 ss = pre ++ post ->
+    view S (recover_state (run_ssteps pre)) =
+      (if closes S pre =? 0 then None
+       else option_map (fun s => (closes S pre, s)) (nth_error ss (N.to_nat (closes S pre - 1)))).
+Proof. exact state_recovery. Qed.
+
+(* 3. STREAMS: whenever the readable index files, in name order, never show an older version of a
+      stream after a newer one and every published file is complete on disk, a restart shows every
+      stream the running manager showed, under the same id, in that or a newer version. *)
+Theorem c12_restart_shows_memory_or_newer_partial :
+  forall (st : mstate) (id v : N),
+    mono (map i_streams (readable (disk st))) ->
+    (forall n, In n (mem st) -> is_complete (disk st) n = true) ->
+    mem_view st id = Some v ->
+    exists w, restart_view st id = Some w /\ v <= w.
+Proof. exact restart_shows_memory_or_newer. Qed.
+
+(* 4. The unpatched naming of merged files (by creation time) violates that ordering: reproduced on
+      the Go code before fixes/C12-1 (scenario merge-shadow of checks/c12.py). *)
+Theorem c12_unpatched_merge_name_shadows_import_refuted :
+  mem_view (run_m false shadow_history) 0 = Some 2 /\ restart_view (run_m false shadow_history) 0 = Some 1.
+Proof. exact unpatched_restart_shows_old_version. Qed.
+
+Example c12_ex_patched_merge_name :
+  mem_view (run_m true shadow_history) 0 = Some 2 /\ restart_view (run_m true shadow_history) 0 = Some 2.
+Proof. exact patched_restart_shows_new_version. Qed.
+
+Example c12_ex_state_crash_inside_second_save :
+  view nat (recover_state (run_ssteps [SCreate (1, 0) 1 7%nat; SClose (1, 0); SCreate (2, 0) 2 8%nat])) = Some (1, 7%nat).
+Proof. vm_compute. reflexivity. Qed.
